@@ -43,6 +43,10 @@ CHECKS["C19"] = ("§5 C19", "The real ConfigService lookup chain over 6 keys x 6
     "environment); application-frame classification and short path over FREE symbolic file names and include/exclude prefixes against a reference (exclusion wins, prefix "
     "semantics); code-vs-environment equivalence of every documented key observed through the real consumers (LongPoll timer construction, GRPCService channel choice, "
     "is_app_frame, AuthProvider, deep.start).")
+CHECKS["C05"] = ("§5 C05", "Snapshots of 9 graph templates collected by the real FrameCollector/VariableSetProcessor/BFS under SYMBOLIC limits (max_variables, "
+    "max_collection_size, max_var_depth unbounded; the solver partitions them against the graph; max_string_length 0..8): budget, string cut + truncated flag, per-collection "
+    "cap, depth cap, truthful content, breadth-first spending of the budget (level order against an independent BFS of the real objects), locals never crowded out, everything "
+    "within limits collected; two declaration orders (four thorough).")
 PENDING = {}
 
 def main():
